@@ -1084,10 +1084,10 @@ def _op_r_indexes(self):
 Exec.op_r_indexes = _op_r_indexes
 
 def latent_conflict(fixture, hist):
-    """the history creates an object under a primary key that already exists in the database but is
+    """the history creates an object under a primary key (or with the unique value 'u1') that already exists in the database but is
     not loaded: a latent key conflict that Pony can only report at flush (C14). Labels then denote
     two different things, so view-based monitors skip such states."""
-    return fixture.startswith('populated') and any(op[0] == 'create' and op[2] in (1, 2) for op in hist)
+    return fixture.startswith('populated') and any(op[0] == 'create' and (op[2] in (1, 2) or 'u1' in op[3].values()) for op in hist)
 
 _QUICK_MODELS = None
 def deep_model(name):
